@@ -50,6 +50,9 @@ ASSUMPTIONS = [
     "leakage at rounding level: responses are compared against max(requested level, rounding floor) with floor amplitude "
     "A*S1*u*(4L + 2*sqrt(L)/|sin w|), an empirical (not proved) bound >= 20x the largest rounding error observed for L <= 65536",
     "rounding / fastmath re-association are covered by tolerances, not by theorem",
+    "attributes of a multi-bin result (ps, Gxx, psd, asd) are judged as amplitudes sqrt(ps*S1^2/2) = sqrt(Gxx*fs*S2/2) = sqrt(XX) with S1, S2 from the independent window; the "
+    "attribute arithmetic (one multiplication / division / square root each) is allowed 8u of the value itself; a bin of a spectrum and the single-bin analysis at the same frequency "
+    "and segment length with identical segment starts run the same kernel on the same numbers: compared within 2*floor_amp, the budget of the sweeps",
     "order 0 (the library default) analyses the sinusoid minus each segment's mean, not a pure sinusoid: the sweeps judge it at the literal level plus the "
     "amplitude the removed constant can add, cmax*(|W(w)| + sqrt(t)*|W(w0)|) with cmax = A*|D_L(w0)|/L (triangle inequality, W from the independent window; "
     "measured < 0.1% of the limit); orders 1, 2 are not swept (no such bound). History independence (same request on a fresh analyzer and a pristine copy "
@@ -72,6 +75,13 @@ RULE = ("cases: unit-amplitude tone at fractional bin position m0 (at least 1.00
         "or as a strided view; every response is judged against the literal level AND compared with the same request on a fresh analyzer over a pristine copy "
         "of the record (a single-bin result does not depend on earlier analyses), and the caller's buffer must be bit-identical afterwards. "
         "Plans are run on the default / numpy / numba backend and must leave the record untouched too. "
+        "PLAN-PS (the spectrum as the user reads it): a clean sinusoid, amplitude 1e-6 ... 1e6, analysed over a whole plan for EVERY combination of scheduler {ltf, lpsd, vectorized_ltf, "
+        "new_ltf} x backend {numpy, numba/auto} x order {-1, 0} each round, psll in {120, 160, 180, 200} rotated so that every scheduler and every (backend, order) meets every psll "
+        "each round, through analyzer.compute() / compute_spectrum() / lpsd() (bmin at or above the main-lobe half-width in half of the cases, Jdes of the lpsd scheduler chosen so that "
+        "its bins lie beyond the main lobe of 0); for EVERY bin of the result (first round; an even spread of 40 in later quick rounds) farther than sqrt(1+alpha^2) bins of its "
+        "own fs/L_i from the line, bin and line one half-width from 0 and Nyquist: result.ps[i] against ps of the single-bin analysis AT the line with the same L_i, literally -(P-1) dB, and "
+        "ps / Gxx / psd / asd / XX of the bin against the single-bin analysis at the same (f_i, L_i) (identical segment starts; else the definition in extended precision over the "
+        "bin's own segments) within twice the rounding floor, an absolute amount relative to the peak. "
         "CROWDS (a 'compare the settings' session: other live objects must not matter): 2-4 Kaiser analyzers with DIFFERENT psll (e.g. 200 / 140 / 80; constructed larger-first, "
         "smaller-first and in random order, each pattern every run) plus 0-2 non-Kaiser bystanders (hann / callables, often constructed last) are ALL set up first -- on one shared "
         "record and on different records, alternately differing in psll only and in everything (Kaiser spelling, order -1/0, overlap, backend, fs, L, request form) -- and only "
@@ -82,7 +92,7 @@ RULE = ("cases: unit-amplitude tone at fractional bin position m0 (at least 1.00
         "of the record that was created, used and discarded BEFORE the session's first analyzer existed (a twin created during the session would itself rewrite shared state and "
         "repair the member it is compared with); for the hand-made sessions and the first generated ones the twins also come from a fresh interpreter, one analyzer at a time. "
         "distinct by (L, P rounded, side, near/far offset, K class, entry point, request form, backend) / sweeps by (L, P rounded, segmentation, backend, order, "
-        "entry point, request form) / crowds by (L, P rounded, construction pattern, position in the construction order, same/different records, backend, order, intruders); non-trivial = the requested level is above the rounding floor")
+        "entry point, request form) / plan-ps by (scheduler, backend, order, P, entry point, side) / crowds by (L, P rounded, construction pattern, position in the construction order, same/different records, backend, order, intruders); non-trivial = the requested level is above the rounding floor")
 
 SLACK_DB = 0.0
 STATS: Dict[str, Any] = {}
@@ -822,6 +832,229 @@ def _check_plan(P: C.Part, c: Dict[str, Any], x: np.ndarray) -> None:
     P.hit(f"plan.bins-checked={min(done, 8)}")
 
 
+# ================================================================ full-plan leakage as the user reads it: `ps` / `Gxx` of EVERY bin of a multi-bin result
+# (seeded defect C12h: the `Gxx` branch of SpectrumResult.__getattr__ clamped the density at eps*max(Gxx) of the SAME result "so that log plots never hit 0":
+#  the raw statistic XX that `check_plan` reads is untouched and a one-element result is its own maximum, but no bin of a multi-bin spectrum can read more
+#  than ~156 dB below the largest density bin, so a clean line analysed with psll >= 160 bottoms out at -157 ... -142 dB.)
+# The property's observable is `SpectrumResult.ps`, and its quantifier is over every analysis frequency beyond the main lobe: in a spectrum those are the
+# BINS OF THE RESULT, each with its own segment length L_i.  A case is one clean sinusoid (amplitude 1e-6 ... 1e6) analysed over a whole plan -- every
+# scheduler x backend {numpy, numba/auto} x order {-1, 0} each round, psll in {120, 160, 180, 200} rotated so that every scheduler and every (backend, order)
+# meets every psll each round, through analyzer.compute() / compute_spectrum() / lpsd().  For EVERY bin farther than sqrt(1+alpha^2) bins (of ITS OWN fs/L_i)
+# from the line, with bin and line one main-lobe half-width from 0 and Nyquist:
+#   (i)  `ps[i]` against `ps` of a single-bin analysis AT the line with the same L_i (same analyzer), literally -(P-1) dB: `_judge`, the D12 envelope
+#        unchanged.  ps = 2*XX/S1^2 with the same S1 on both sides, so the amplitudes handed to `_judge` are sqrt(ps*S1^2/2), S1 from the independent
+#        window; `extra` carries the rounding of the attribute arithmetic (a few ulp of the value itself, 8u*sqrt(.)) and, for order 0, the proved allowance
+#        for the removed segment mean (mean_allowance);
+#   (ii) `ps`, `Gxx`, `psd`, `asd` and the raw `XX` of the bin against the same attributes of a single-bin analysis at the same (f_i, L_i): a bin of a spectrum is the
+#        same estimator as that single-bin analysis -- when the segment starts agree (they do for ~95% of the bins) both run the same kernel on the same
+#        numbers; otherwise, for up to PS_REF_MAX bins per case, against the estimator's definition in extended precision over the bin's OWN reported
+#        segments (C06.ref_bin_fast).  Compared as amplitudes sqrt(XX)-equivalent with an ABSOLUTE budget relative to the PEAK: 2*floor_amp + 8u*value
+#        (two evaluations, each within floor_amp of the exact value; the 8u term is the attribute arithmetic); floor_amp = A*S1*u*(4L + 2 sqrt(L)/|sin w|) is the module's existing rounding floor of one Goertzel evaluation
+#        (>= 20x the largest error measured), scaled by the data (A*S1 = 2x the on-line amplitude: about -234 dB re the peak in power at L = 1000) and never by the
+#        bin's own, possibly vanishing, value.  So any floor / clamp / smoothing / wrong-row bookkeeping between the kernels and the attributes of a
+#        multi-bin result shows, whatever psll (at psll = 120 the far bins are below -156 dB as well).
+PS_PSLL = [120.0, 160.0, 180.0, 200.0]
+PS_BACKENDS = ["numpy", "numba"]
+PS_ORDERS = [-1, 0]
+PS_ENTRIES = ["compute", "compute_spectrum", "lpsd"]
+PS_COMBOS = len(_an.SCHEDS) * len(PS_BACKENDS) * len(PS_ORDERS)        # 16 per round
+PS_AMPS = [1.0, 1e-6, 1e6, 3.0, None]
+PS_FIELDS = ("ps", "Gxx", "psd", "asd", "XX")
+PS_REF_MAX = 4
+PS_MAXBINS = 400
+
+
+def gen_planps(rng: np.random.Generator, thorough: bool, i: int, rot: int = 0) -> Dict[str, Any]:
+    combo, rep = i % PS_COMBOS, i // PS_COMBOS
+    s, b, o = combo % 4, (combo // 4) % 2, combo // 8
+    A = PS_AMPS[(i + rep + rot) % len(PS_AMPS)]
+    Lmin = int(rng.choice([64, 128, 300]))
+    P = PS_PSLL[(s + b + 2 * o + rep + rot) % 4]
+    N = int(rng.integers(3000, 20000 if thorough else 8000))
+    hw = hw_bins(P)
+    # the line: far enough from 0 and Nyquist that the shortest segments of the plan (Lmin) still have it a main-lobe half-width inside, mostly
+    qlo = min(0.2, 1.05 * hw / Lmin)
+    backend = PS_BACKENDS[b]
+    if backend == "numba" and rng.random() < 0.25:
+        backend = "auto"
+    sched = _an.SCHEDS[s]
+    Jdes, bmin = int(rng.integers(30, 90)), None
+    if sched == "lpsd":
+        # the lpsd scheduler ignores bmin / Lmin and keeps every bin at bin number ~ (Jdes-1)/ln(N/2) of its own fs/L: that has to exceed the main-lobe
+        # half-width (bins closer to 0 than that are outside the property's quantifier), so its plans get more bins
+        Jdes = int(math.ceil((hw + float(rng.uniform(2.0, 25.0))) * math.log(N / 2.0))) + 1
+    elif rng.random() < 0.5:
+        bmin = float(math.ceil(hw) + rng.integers(0, 4)) if rng.random() < 0.5 else float(1.0001 * hw + rng.uniform(0.0, 3.0))    # the low, long-segment bins eligible too
+    return {"kind": "planps", "N": N, "fs": float(rng.choice([1.0, 2.0, 1000.0, float(10 ** rng.uniform(-2, 4))])),
+            "P": P, "A": float(A if A is not None else 10 ** rng.uniform(-6, 6)), "q0": float(rng.uniform(qlo, 0.5 - qlo)) if rng.random() < 0.8 else float(rng.uniform(0.01, 0.49)),
+            "phi": float(rng.uniform(0, 2 * np.pi)), "Jdes": Jdes, "Kdes": int(rng.choice([2, 5, 20])), "Lmin": Lmin, "bmin": bmin,
+            "olap": [None, 0.0, 0.5, None][int(rng.integers(0, 4))], "scheduler": sched, "backend": backend, "order": PS_ORDERS[o],
+            "entry": PS_ENTRIES[(combo + rep + rot) % len(PS_ENTRIES)],
+            # every eligible bin in the first round of a quick run and in every round of a thorough one; an even spread of 40 of them in the later quick rounds (run time:
+            # each bin costs two single-bin analyses)
+            "maxbins": PS_MAXBINS if (thorough or rep == 0) else 40}
+
+
+def _amp_equiv(name: str, v: float, fs: float, S1: float, S2: float) -> float:
+    """the attribute value as an amplitude on the scale of sqrt(XX): ps = 2 XX/S1^2, Gxx = psd = 2 XX/(fs S2), asd = sqrt(psd)"""
+    if name == "asd":
+        return v * math.sqrt(fs * S2 / 2.0) if v >= 0 else float("nan")
+    if not v >= 0:
+        return float("nan")            # negative or NaN power
+    return math.sqrt(v) if name == "XX" else math.sqrt(v * S1 * S1 / 2.0) if name == "ps" else math.sqrt(v * fs * S2 / 2.0)
+
+
+def check_planps(P: C.Part, c: Dict[str, Any]) -> None:
+    x = tone(c["N"], c["A"], omega_of(c["q0"] * c["fs"], c["fs"]), c["phi"])
+    before = x.tobytes()
+    _check_planps(P, c, x)
+    if x.tobytes() != before:
+        viol(P, f"the caller's record was MODIFIED by {c['entry']} / compute_single_bin (backend {c['backend']}, order {c['order']}, olap={c['olap']}, psll={c['P']}, "
+                f"scheduler {c['scheduler']}, N={c['N']})", {"subclaim": "record-intact", "path": "plan-ps"}, c)
+
+
+def _check_planps(P: C.Part, c: Dict[str, Any], x: np.ndarray) -> None:
+    import speckit
+    from .C06 import ref_bin_fast
+    remember(c)
+    N, fs, Pdb, A, order = c["N"], c["fs"], c["P"], c["A"], c["order"]
+    f0 = c["q0"] * fs
+    o = dict(win="kaiser", psll=Pdb, order=order, Jdes=c["Jdes"], Kdes=c["Kdes"], scheduler=c["scheduler"], Lmin=c["Lmin"])
+    if c["olap"] is not None:
+        o["olap"] = c["olap"]
+    if c.get("bmin") is not None:
+        o["bmin"] = c["bmin"]
+    if c["backend"] != "auto":
+        o["backend"] = c["backend"]
+    tag = f"{c['entry']}(), scheduler {c['scheduler']}, backend {c['backend']}, order {order}, olap {c['olap']}, bmin {c.get('bmin')}, Jdes={c['Jdes']}, Kdes={c['Kdes']}, Lmin={c['Lmin']}, N={N}, fs={fs!r}, A={A!r}"
+    sig0 = {"subclaim": "leakage", "path": "plan-ps"}
+    P.cases += 1
+    try:
+        an = speckit.SpectrumAnalyzer(x, fs, **o)
+        res = an.compute() if c["entry"] == "compute" else getattr(speckit, c["entry"])(x, fs, **o)
+    except Exception:  # noqa  (a rejected plan is C02's business)
+        P.hit("planps.raised")
+        return
+    P.hit(f"planps.{c['scheduler']},{c['backend']},order={order},psll={Pdb:.0f}")
+    P.hit(f"planps.entry={c['entry']}")
+    try:
+        f, Ls = np.asarray(res.f, dtype=float), np.asarray(res.L)
+        got = {nm: np.asarray(getattr(res, nm), dtype=float) for nm in PS_FIELDS + ("S12", "S2")}
+        nf = len(f)
+        if any(v.shape != (nf,) for v in got.values()) or Ls.shape != (nf,):
+            raise ValueError("shapes " + repr({nm: v.shape for nm, v in got.items()}))
+    except Exception as ex:  # noqa
+        viol(P, f"reading f / L / {PS_FIELDS} of the result of {tag} failed: {ex!r}", dict(sig0, raises=True), c)
+        return
+    dmin = 1.0001 * hw_bins(Pdb)
+    omega0 = 2.0 * np.pi * f0 / fs
+    perL: Dict[int, Any] = {}
+    n_judged = n_ref = 0
+    dead_leak = False
+    dead_fields: set = set()
+    elig = []
+    for j in range(nf):
+        L = int(Ls[j])
+        b, b0 = float(f[j]) * L / fs, f0 * L / fs
+        if not (L < 64 or L > N or abs(b - b0) < dmin or min(b, L / 2 - b) < dmin or min(b0, L / 2 - b0) < dmin):
+            elig.append(j)
+    cap = int(c.get("maxbins", PS_MAXBINS))
+    if len(elig) > cap:                 # a plan with thousands of bins (new_ltf with few averages): an even spread over the eligible bins, first and last included
+        P.hit("planps.more-eligible-bins-than-cap")
+        elig = sorted({elig[int(round(k * (len(elig) - 1) / (cap - 1)))] for k in range(cap)})
+    for j in elig:
+        if full(P) or (dead_leak and len(dead_fields) == len(PS_FIELDS)):
+            break
+        L = int(Ls[j])
+        b, b0 = float(f[j]) * L / fs, f0 * L / fs
+        d = b - b0
+        if L not in perL:
+            w = _an.window("kaiser", L, Pdb)
+            wl = w.astype(LD)
+            try:
+                r0 = an.compute_single_bin(f0, L=L)
+                ps0, XX0 = float(r0.ps[0]), float(r0.XX[0])
+            except Exception as ex:  # noqa
+                viol(P, f"single-bin analysis of the line with L={L} raised {ex!r} ({tag})", dict(sig0, raises=True), c, bin=j)
+                return
+            perL[L] = (w, wl, float(wl.sum()), float((wl * wl).sum()), ps0, XX0, abs(A) * dirichlet_abs(L, omega0) / L, abs(win_transform(wl, omega0)))
+        w, wl, S1, S2, ps0, XX0, cmax, W0 = perL[L]
+        P.cases += 1
+        if not (abs(got["S12"][j] - S1 * S1) <= 1e-10 * S1 * S1 and abs(got["S2"][j] - S2) <= 1e-10 * S2):
+            viol(P, f"plan bin {j} (L={L}): window sums S12={float(got['S12'][j])!r}, S2={float(got['S2'][j])!r} differ from the DFT-even Kaiser window "
+                    f"with beta=kaiser_alpha({Pdb})*pi ({S1 * S1!r}, {S2!r}) ({tag})", dict(sig0, subclaim="window"), c, bin=j)
+            return
+        peak = A * A / 2.0
+        if not (0.5 * peak <= ps0 <= 2.0 * peak and 0.5 * peak <= 2.0 * XX0 / (S1 * S1) <= 2.0 * peak):
+            viol(P, f"single-bin analysis at the tone's own frequency with L={L}: ps = {ps0!r}, 2*XX/S1^2 = {2.0 * XX0 / (S1 * S1)!r}, expected about A^2/2 = {peak!r} ({tag})",
+                 dict(sig0, subclaim="peak"), c, bin=j)
+            return
+        omega = 2.0 * np.pi * float(f[j]) / fs
+        fl = floor_amp(A, S1, L, omega)
+        K = int(len(res.D[j]))
+        # (i) the property's level, literally, on the attribute the property names
+        if not dead_leak:
+            a_ps, a_ps0 = _amp_equiv("ps", float(got["ps"][j]), fs, S1, S2), _amp_equiv("ps", ps0, fs, S1, S2)
+            extra = 8.0 * U * (a_ps if math.isfinite(a_ps) else 0.0)
+            if order == 0:
+                # mean_allowance with the per-L parts (cmax, |W(w0)|) computed once
+                extra += 1.0001 * cmax * (abs(win_transform(wl, omega)) + 10.0 ** ((-(Pdb - 1.0) + ENVELOPE_DB) / 20.0) * W0)
+            XXe = a_ps * a_ps            # NaN (a negative or NaN ps) fails the predicate below
+            ok, dominated, lim = _judge(P, c, sig0, XXe, a_ps0 * a_ps0, Pdb, A, S1, L, omega, K,
+                                        {"L": L, "P": Pdb, "m0": b0, "delta": d, "K": K, "order": order, "backend": c["backend"], "path": "plan-ps"},
+                                        extra=extra, stat="worst" if order == -1 else "worst-order0")
+            n_judged += 1
+            if not dominated:
+                P.nontrivial.add(("planps", c["scheduler"], c["backend"], order, round(Pdb), c["entry"], d > 0))
+            if not ok:
+                rel = 10 * math.log10(max(float(got["ps"][j]), 1e-320) / ps0) if got["ps"][j] == got["ps"][j] else float("nan")
+                relxx = 10 * math.log10(max(float(got["XX"][j]), 1e-320) / XX0)
+                viol(P, f"full analysis {tag}, Kaiser psll={Pdb:.2f} dB: bin {j} of {nf} (f={float(f[j])!r}, L={L}, K={K}) lies {d:+.3f} bins of fs/L from the tone (main lobe "
+                        f"half-width {hw_bins(Pdb):.3f}) but result.ps[{j}] = {float(got['ps'][j])!r} is {rel:.2f} dB relative to ps = {ps0!r} of the single-bin analysis at the tone "
+                        f"with the same L, required <= {-(Pdb - 1):.2f} dB (rounding floor included; the raw XX[{j}] is at {relxx:.2f} dB)",
+                     dict(sig0), c, bin=j, observed_db=rel, ps=float(got["ps"][j]), ps0=ps0)
+                if sig0.get("envelope") == "beyond":
+                    dead_leak = True
+        # (ii) a bin of a spectrum is the single-bin analysis at the same (f, L): every calibrated attribute, absolute budget relative to the PEAK
+        if len(dead_fields) == len(PS_FIELDS):
+            continue
+        ref, how = None, ""
+        try:
+            r1 = an.compute_single_bin(float(f[j]), L=L)
+            if np.array_equal(np.asarray(r1.D[0]), np.asarray(res.D[j])) and int(np.asarray(r1.L).ravel()[0]) == L:
+                ref = {nm: float(np.asarray(getattr(r1, nm), dtype=float)[0]) for nm in PS_FIELDS}
+                how, budget = "a single-bin analysis at the same frequency and segment length on the same analyzer (identical segment starts)", 2.0 * fl
+        except Exception:  # noqa  (whether THAT single-bin request is accepted is not this property's business)
+            pass
+        if ref is None:
+            if n_ref >= PS_REF_MAX or K * L > 4_000_000:
+                P.hit("planps.fields:not-compared")
+                continue
+            n_ref += 1
+            XXr = float(ref_bin_fast(x, None, np.asarray(res.D[j]), L, w, omega_of(float(f[j]), fs), order)[0])
+            ref = {"XX": XXr, "ps": 2.0 * XXr / (S1 * S1), "Gxx": 2.0 * XXr / (fs * S2), "psd": 2.0 * XXr / (fs * S2), "asd": math.sqrt(2.0 * XXr / (fs * S2))}
+            how, budget = "the estimator's definition in extended precision over the bin's own segments", 2.0 * fl
+        P.hit("planps.fields-vs-" + ("single-bin" if how.startswith("a single") else "definition"))
+        bad = []
+        for nm in PS_FIELDS:
+            P.cases += 1
+            am, ar = _amp_equiv(nm, float(got[nm][j]), fs, S1, S2), _amp_equiv(nm, ref[nm], fs, S1, S2)
+            if not abs(am - ar) <= budget + 8.0 * U * max(abs(am), abs(ar)):
+                bad.append((nm, am, ar))
+        if bad:
+            nm, am, ar = bad[0]
+            dbp = 20 * math.log10(max(am, 1e-320) / (abs(A) * S1 / 2.0)) if am == am else float("nan")
+            viol(P, f"full analysis {tag}, Kaiser psll={Pdb:.2f} dB: result.{nm}[{j}] = {float(got[nm][j])!r} (bin {j} of {nf}, f={float(f[j])!r}, L={L}, K={K}, {d:+.3f} bins from the "
+                    f"tone; {dbp:.2f} dB re the on-line response) but {how} gives {nm} = {ref[nm]!r}: as amplitudes {am!r} vs {ar!r}, allowed difference {budget!r} "
+                    f"(rounding floor relative to the peak A*S1/2 = {abs(A) * S1 / 2.0!r}); fields that differ at this bin: {[b_[0] for b_ in bad]} of {list(PS_FIELDS)}: "
+                    f"the value of a bin depends on the OTHER bins of the result",
+                 {"subclaim": "bin-is-single-bin", "path": "plan-ps", "field": nm}, c, bin=j, observed=float(got[nm][j]), expected=ref[nm], fields=[b_[0] for b_ in bad])
+            dead_fields.update(PS_FIELDS)       # one report per case
+    P.hit(f"planps.bins-judged={'0' if n_judged == 0 else '1-9' if n_judged < 10 else '10-29' if n_judged < 30 else '30+'}")
+    P.sample({"op": "planps", **{k: c[k] for k in ("N", "P", "A", "q0", "scheduler", "backend", "order", "entry", "Jdes", "Kdes", "Lmin", "olap")}, "bmin": c.get("bmin"), "bins": int(nf),
+              "judged": n_judged}, cap=3)
+
+
 def _crowd_case(arr: str, Ps: List[float], last: Any) -> Dict[str, Any]:
     """a hand-made session on one record of 5 segments of L = 1000: Kaiser analyzers with the library's default order / overlap / backend that differ in psll only"""
     mk = lambda role, P, win: {"role": role, "P": P, "win": win, "rec": 0, "L": 1000, "order": 0, "olap": None, "backend": "auto", "fs": 1.0, "how": "L", "q": 1000.0,  # noqa: E731
@@ -831,7 +1064,7 @@ def _crowd_case(arr: str, Ps: List[float], last: Any) -> Dict[str, Any]:
             "intruders": [], "schedule": [[k, j] for j in range(10) for k in ((j + np.arange(len(members))) % len(members)).tolist()[::(1 if j % 2 else -1)]]}
 
 
-CHECKS = {"leak": check_leak, "plan": check_plan, "sweep": check_sweep, "crowd": check_crowd}
+CHECKS = {"leak": check_leak, "plan": check_plan, "planps": check_planps, "sweep": check_sweep, "crowd": check_crowd}
 CORPUS = [
     # tightest configurations found on the unchanged tree: short window / high P (first side lobe at -(P-0.94) dB), tone one main lobe from DC at low P
     {"kind": "leak", "L": 64, "N": 64, "P": 195.0, "fs": 1.0, "m0": 8.2, "phi": 0.3, "A": 1.0, "deltas": [8.0234375, 8.5, 9.0, 12.0], "olap": 0.0, "via": "func", "win": "kaiser"},
@@ -850,6 +1083,12 @@ CORPUS = [
     # (there the psll=80 analyzer gets the psll=200 main lobe), with a hann analyzer constructed last in the second session
     _crowd_case("desc", [200.0, 140.0, 80.0], None),
     _crowd_case("asc", [80.0, 140.0, 200.0], "hann"),
+    # seeded defect C12h (wave 8): Gxx clamped at eps*max(Gxx) of the same result: in a multi-bin spectrum of a clean line no bin's ps / Gxx / psd / asd reads more than
+    # ~156 dB below the largest density bin (psll >= 160 bottoms out at -157 ... -142 dB; the raw XX and one-element results are untouched)
+    {"kind": "planps", "N": 8000, "fs": 1.0, "P": 200.0, "A": 3.0, "q0": 0.0537, "phi": 0.4, "Jdes": 80, "Kdes": 20, "Lmin": 300, "olap": None, "scheduler": "lpsd",
+     "backend": "auto", "order": -1, "entry": "compute"},
+    {"kind": "planps", "N": 6000, "fs": 1000.0, "P": 160.0, "A": 1.0e-4, "q0": 0.21234, "phi": 1.9, "Jdes": 60, "Kdes": 5, "Lmin": 64, "olap": None, "scheduler": "vectorized_ltf",
+     "backend": "numpy", "order": 0, "entry": "lpsd"},
 ]
 
 
@@ -928,8 +1167,9 @@ def oracle(ctx, intensive: bool = False, hints=()) -> C.Part:
     mult = 4 if intensive else 1
     try:
         srng, crng = ctx.rng.spawn(2)           # srng is the stream the sweeps have always had (the first child); crng is the crowds'
+        prng = ctx.rng.spawn(1)[0]              # the third child: the plan-ps stream (spawning does not consume ctx.rng: the older streams keep their cases)
     except Exception:  # noqa  (a generator without a seed sequence)
-        srng, crng = (np.random.default_rng([k, int(getattr(ctx, "seed", 0) or 0)]) for k in (0xC12E, 0xC129))
+        srng, crng, prng = (np.random.default_rng([k, int(getattr(ctx, "seed", 0) or 0)]) for k in (0xC12E, 0xC129, 0xC128))
     # crowds (several analyzers alive at once, used interleaved): every (construction order of the psll values, same / different records) pattern
     # each round, alternately "psll only" and "everything differs"; the twins of the hand-made sessions and of the first generated ones are also
     # computed in a fresh interpreter (one subprocess per run)
@@ -958,6 +1198,17 @@ def oracle(ctx, intensive: bool = False, hints=()) -> C.Part:
             P.notes.append(f"sweep: time share reached after {i} of {n_sweep} cases")
             break
         check_sweep(P, gen_sweep(np.random.default_rng(int(srng.integers(0, 2 ** 62))), ctx.thorough, i))
+    # plan-ps: every (scheduler, backend, order) each round, psll in {120, 160, 180, 200} / amplitude / entry point rotated by round and seed
+    t0 = time.time()
+    n_ps = PS_COMBOS * ctx.scale(2, 8) * mult
+    rot = int(prng.integers(0, 60))
+    for i in range(n_ps):
+        if full(P):
+            break
+        if time.time() - t0 > 10.0 * ctx.scale(1, 4) * mult or ctx.time_left() < 40:
+            P.notes.append(f"planps: time share reached after {i} of {n_ps} cases")
+            break
+        check_planps(P, gen_planps(np.random.default_rng(int(prng.integers(0, 2 ** 62))), ctx.thorough, i, rot))
     t_all = max(30.0, min(ctx.time_left() - 20.0, (600.0 if ctx.thorough else 70.0) * mult))
     for kind, n, share in (("leak", ctx.scale(400, 4000) * mult, 0.75), ("plan", ctx.scale(40, 300) * mult, 0.25)):
         t0 = time.time()
